@@ -111,7 +111,11 @@ def _c09_sweeps():
     bqthr2 = [{"prog": prog_str(t, num), "cap": 2, "throwat": k} for t in thread_programs(["P", "Q", "T", "G"], 2, 2, keep=lambda c: npush(c) >= 2 and any(o == "Q" for th in c for o in th)) if bq_completes(t, 2, 0, 1) for k in (1, 2)]
     bqthr1 = [{"prog": prog_str(t, num), "cap": 1, "throwat": 1} for t in thread_programs(["P", "Q", "T", "G"], 2, 2, keep=lambda c: npush(c) >= 2) if bq_completes(t, 1, 0, 1)]
     qthr = [{"prog": prog_str(t, num), "throwat": k, "big": b} for b in (0, 1) for t in thread_programs(["P", "G"], 3, 2, keep=lambda c: npush(c) >= 2) for k in (1, 2)]
+    qaf = [{"prog": prog_str(t, num), "allocfail": k} for t in thread_programs(["P", "G"], 3, 2, keep=lambda c: npush(c) >= 1) for k in (1, 2) if k <= npush(t)]
+    bqaf = [{"prog": prog_str(t, num), "allocfail": k, "cap": 4} for t in thread_programs(["P", "Q", "T", "G"], 2, 2, keep=lambda c: npush(c) >= 2) if bq_completes(t, 4, 0, 1) for k in (1, 2)]
     return [
+        sweep("sweep-q-allocfail", "c09_queue", (1, 2), qaf, what="concurrent_queue with one element per page: the first / second page allocation inside the window throws std::bad_alloc (the lane is invalidated: the failing push and later pushes into that lane throw, pops must pass over their tickets)", tiers=("quick", "thorough")),
+        sweep("sweep-bq-allocfail", "c09_queue", (1, 2), bqaf, {"bounded": 1}, what="concurrent_bounded_queue (capacity 4): page allocation failure with blocking pops"),
         sweep("sweep-bq-throw-2x2", "c09_queue", (2, 3), bqthr2, {"bounded": 1}, what="capacity 2, two threads, programs with a blocking pop and at least two pushes that cannot block forever even if one push fails; the first / second element copy throws (a blocked pop must be woken by the next successful push)", tiers=("quick", "thorough")),
         sweep("sweep-bq-throw-3x2", "c09_queue", (1, 2), bqthr, {"bounded": 1}, what="same with three threads", weight=2.0),
         sweep("sweep-bq-throw-cap1", "c09_queue", (1, 2), bqthr1, {"bounded": 1}, what="capacity 1, two threads, every pair of sequences with at least two pushes, the first element copy throws; executions that the recorded finding (invalid entry counts against the capacity) explains are reported as KNOWN-FINDING, anything else as a violation", tiers=("quick", "thorough")),
@@ -421,6 +425,8 @@ def _c01():
     for ta in (1, 2, 3):
         L.append(leg("rt-copythrow-%d" % ta, "c01_rt", (2, 3), {"kind": "copythrow", "throwat": ta}, flags=("-fp", "-hb"), what="the copy of the functor into its task throws inside the %d. task_group::run; the group keeps being used: waits still cover every accepted unit" % ta))
     L.append(leg("rt-copythrow-defer", "c01_rt", (2, 3), {"kind": "copythrow", "throwat": 2, "defer": 1}, flags=("-fp", "-hb"), what="same, the failing call is task_group::defer"))
+    for k in ("tg", "nested", "run_and_wait", "pfor", "pfor_auto", "pfor_aff", "isolate", "cancel", "enqueue"):
+        L.append(leg("rt-%s-P1" % k, "c01_rt", (1, 2), {"kind": k, "P": 1}, flags=("-fp", "-hb"), what="%s with max_allowed_parallelism 1 / task_arena(1): no worker may be needed for the wait to cover all work" % k, weight=0.3))
     L.append(leg("rt-tg-P3", "c01_rt", (1, 2), {"kind": "nested", "P": 3}, flags=("-fp", "-hb"), what="two workers", weight=2.0))
     L.append(leg("rt-ext_run", "c01_rt", (1, 2), {"kind": "ext_run"}, flags=("-fp", "-hb"), what="two external threads run() into one group while it is waited for (reference vertex 0<->1)", weight=3.0))
     L.append(leg("rt-oversub", "c01_rt", (1, 2), {"kind": "oversub"}, flags=("-fp", "-hb"), what="three threads, two slots: delegated execute", weight=3.0))
